@@ -148,6 +148,18 @@ def dag_part(R, S, rng, quick):
         S.run(fam, 'begin_parse.to_cell', s, lambda: cell.begin_parse().to_cell(), W, expect='ok')
         S.run(fam, 'hash/eq', s, lambda: (hash(cell), cell == cell.copy(), cell.get_hash(0), cell.get_depth(0)), W, expect='ok')
         S.run(fam, 'calculate_representation_hash', s, lambda: cell.calculate_representation_hash(), W, expect='ok')
+        # derived objects are used (a builder made from the cell takes the cell itself as one more reference), then everything is serialised again: a cell
+        # can never come to contain itself, so the traversals stay bounded by the same size
+        if len(cell.refs) < 4 and n <= 600:
+            def derive():
+                b = cell.to_builder()
+                b.store_ref(cell)
+                return b.end_cell()
+            parent = S.run(fam, 'to_builder+store_ref(self)', s, derive, W, expect='ok')
+            if parent is not None:
+                S.run(fam, 'to_boc(parent built from the cell)', s + 2, lambda: parent.to_boc(), W, expect='ok')
+                S.run(fam, 'to_boc(after derived use)', s, lambda: cell.to_boc(True, True), W, expect='ok')
+                S.run(fam, 'order(after derived use)', s, lambda: cell.order(), W, expect='ok')
         R.case(mon.fp('dag', fam, param), sample=W)
         R.cover('dag_families', fam)
 
@@ -392,6 +404,33 @@ def dict_part(R, S, rng, quick):
             S.run(fam, 'parse_hashmap_aug', (n + e) if top_bits else 2 ** (min(d, 40) + 1), lambda: parse_hashmap_aug(cell.begin_parse(), w, lambda s: s, lambda s: 0), W) \
                 if (top_bits or d <= 12) else None
             R.case(mon.fp('dictladder', fam, d))
+    # a shared leafless ladder next to real entries: before it (smaller keys), after it, on both sides - the leaves found must not change what is remembered as leafless
+    for d in ([8, 16, 30] if quick else [4, 8, 16, 24, 40, 64, 128]):
+        pruned_leaf = rc.make_pruned(rc.RC('1'), 1)
+        barren = pruned_leaf
+        for i in range(d):
+            barren = rc.RC('00', (barren, barren))
+        w = d + 2
+
+        def real(bits_left):
+            # a path of forks (empty labels) ending in a leaf with an 8-bit value; the unused side of each fork is a pruned branch
+            c = rc.RC('00' + '11001100')
+            for i in range(bits_left):
+                c = rc.RC('00', (c, pruned_leaf))
+            return c
+        for fam, build in (('dict-entry-before-barren', lambda: rc.RC('00', (rc.RC('00', (real(d), pruned_leaf)), rc.RC('00', (barren, barren))))),
+                           ('dict-entry-after-barren', lambda: rc.RC('00', (rc.RC('00', (barren, barren)), rc.RC('00', (real(d), pruned_leaf))))),
+                           ('dict-entries-around-barren', lambda: rc.RC('00', (rc.RC('00', (real(d), barren)), rc.RC('00', (barren, real(d))))))):
+            c = build()
+            cell = bridge.to_lib(c, 'builder')
+            n, e = dag_size(c)
+            W = {'depth': d, 'width': w, 'boc': rc.encode_boc([c]) if n < 80 else None, 'paths': 2 ** d}
+            got = S.run(fam, 'parse_hashmap', n + e, lambda: parse_hashmap(cell.begin_parse(), w), W, expect='ok')
+            if got is not None:
+                R.check(len(got) in (1, 2), 'dict-entries-around-barren-leaves', f'{fam}: {len(got)} leaves returned', W)
+            S.run(fam, 'HashMap.parse', n + e, lambda: HashMap.parse(cell.begin_parse(), w), W, expect='ok')
+            S.run(fam, 'load_dict', n + e, lambda: bridge.lib().Builder().store_dict(cell).end_cell().begin_parse().load_dict(w), W, expect='ok')
+            R.case(mon.fp('dictbarren', fam, d))
     # fuzzed dictionary cells: random bits/refs fed to the parsers (must stop: raise or return)
     for i in range(100 if quick else 2000):
         root = gen.rand_dag(rng, rng.choice([1, 3, 10, 30]), max_bits=40)
